@@ -7,13 +7,16 @@ Correspondence of lean/AmaranthVerif/Model/Memory.lean (+ Spec/MemoryRows.lean) 
               `pyMerge` / `replMask` (the two integer primitives the model takes from CPython).
 2. ctor       `write_port(granularity=...)` over row shapes x granularities (width of `en`, error kind),
               `MemoryData` depth / init length, `read_port(transparent_for=...)` rejections, asynchronous
-              write ports: error kinds against the model of the constructors (the malformed stream).
+              write ports: error kinds against the model of the constructors (the malformed stream); whole
+              constructor sequences against `Mem.mkCfg` (what `ctor_wf` / `inv_init` quantify over).
 3. walks      real memories (unsigned / signed / struct / array rows, depths 0 1 2 3 5 8, 0-3 read x 0-3 write
               ports, comb / sync, 1-2 hand-driven clock domains with pos/neg edges and none/sync/async resets,
               every transparency subset the constructor allows, granularity over the divisors of the width,
               optionally wrapped in DomainRenamer / ResetInserter / EnableInserter). Random address / data /
               enable sequences, coincident clock edges, reset pulses, testbench row writes
-              `ctx.set(mem.data[i], v)` and slice writes interleaved. After every operation every read
+              `ctx.set(mem.data[i], v)` and slice writes interleaved, among them accesses to rows that do
+              not exist (`i` = depth, beyond, negative: `IndexError` expected, state untouched — the model's
+              `tbSet`). After every operation every read
               port's `data` and **all rows** (`ctx.get(mem.data[i])`) are observed. Every operation is then
               evaluated by the driver *from the state observed before it*: Model (`Mem.step`), Spec
               (`MemRows.step` on `absState`) and the pre-repair model (`Mem.stepOld`, finding F22).
@@ -264,8 +267,13 @@ def walk_worker(job):
             if op["op"] == "ev":
                 t.event(ctx, op["clk"], op["rst"])
             else:
-                t.tbw(ctx, op)
+                try:
+                    t.tbw(ctx, op)
+                    out["tberr"].append(None)
+                except Exception as e:  # noqa: BLE001     (a row that does not exist: IndexError expected)
+                    out["tberr"].append(common.errkind(e))
             out["obs"].append(t.observe(ctx))
+    out["tberr"] = []
     try:
         t.sim.add_testbench(tb)
         t.sim.run()
@@ -341,6 +349,24 @@ def ctor_worker(job):
                     tf.append((mem if same else other).write_port(domain=DOM_NAMES[d]))
             mem.read_port(domain="comb" if dom < 0 else DOM_NAMES[dom], transparent_for=tf)
             return "ok"
+        if what == "mkcfg":
+            # the whole constructor sequence: Memory(...), write_port(...)..., read_port(...)...
+            _w, sh, depth, ninit, wrs, rds = job
+            mem = Memory(shape=_mk_shape(sh), depth=depth, init=[_mk_shape(sh).from_bits(0) if sh[0] in ("struct", "array") else 0] * ninit)
+            other = Memory(shape=_mk_shape(sh), depth=depth, init=[])
+            wps = [mem.write_port(domain="comb" if d < 0 else DOM_NAMES[d], granularity=g) for d, g in wrs]
+            stray = {}
+            for d, tr in rds:
+                tf = []
+                for j in tr:
+                    if j < len(wps):
+                        tf.append(wps[j])
+                    else:       # not a write port of this memory
+                        tf.append(stray.setdefault(j, other.write_port(domain=DOM_NAMES[0])))
+                mem.read_port(domain="comb" if d < 0 else DOM_NAMES[d], transparent_for=tf)
+            inst = mem.elaborate(None)
+            ws = ",".join(f"{DOM_NAMES.index(p._domain)}:{p._granularity}:{len(p._en)}" for p in inst._write_ports)
+            return f"ok wrs={ws} rows={len(list(mem.data.init))} rd={len(inst._read_ports)}"
         if what == "abits":
             _w, depth = job
             mem = Memory(shape=1, depth=depth, init=[])
@@ -453,7 +479,16 @@ def gen_ops(rng, cfg, n):
         if cfg.get("wrap") in ("reset", "enable"):
             op["ce"] = list(ce)
         r = rng.random()
-        if r < 0.12 and depth:
+        if r < 0.015:
+            # a row that does not exist (also for depth 0): `mem.data[i]` must raise IndexError and nothing may change
+            i = rng.choice([depth, depth + 1, depth + rng.randint(2, 9), (1 << abits), -1, -depth, -depth - 1, -rng.randint(2, 9)])
+            if 0 <= i < depth:
+                i = depth
+            whole = rng.random() < 0.5 or w == 0
+            start, stop = (0, w) if whole else (0, rng.randint(0, w))
+            op.update({"op": "tbw", "i": i, "start": start, "stop": stop, "v": rng.getrandbits(max(stop - start, 1)),
+                       "whole": whole, "oob": True})
+        elif r < 0.12 and depth:
             i = rng.randrange(depth)
             whole = rng.random() < 0.6 or w == 0
             if whole:
@@ -496,6 +531,11 @@ def parse_item(it):
         f = lambda s: [int(v) for v in s.split(",")] if s else []
         return f(rows), f(rd)
     return st(kv["m"]), st(kv["s"]), st(kv["o"]), kv.get("rs", ""), kv.get("ds", "")
+
+
+def item_error(it):
+    """the exception kind the model (`Mem.tbSet`) predicts for a testbench row access, or None"""
+    return common.kv(it).get("e")
 
 
 # ------------------------------------------------------------------------------------------------
@@ -653,7 +693,8 @@ def run(chk):
         "of the width or array length, or None) x 0-3 read ports (comb or sync, transparency = random subset of the same-domain write "
         "ports in random order) x initial rows (none/partial/full) x wrapper (none/DomainRenamer/ResetInserter/EnableInserter); "
         "operations = seeded inputs (addresses random / two hot addresses / one address; enables all-ones, zero or random bits) followed by "
-        "a clock event (each domain's clock toggles with p=.75, resets pulse) or a testbench row / row-slice write. distinct = distinct "
+        "a clock event (each domain's clock toggles with p=.75, resets pulse) or a testbench row / row-slice write (1.5 % of the "
+        "operations name a row that does not exist - index = depth, beyond it, or negative - and must raise IndexError). distinct = distinct "
         "(configuration, operation list); non-trivial = at least one enabled in-range write and one enabled sync capture or comb read. "
         "graph: all states x all input valuations x all clock events of the listed small configurations.")
 
@@ -706,6 +747,34 @@ def run(chk):
     for depth in list(range(0, 20)) + [31, 32, 33, 255, 256, 257]:
         jobs.append(("abits", depth))
         reqs.append(f"(abits {depth})")
+    # whole constructor sequences (Mem.mkCfg): mostly valid, with single and combined faults - a transparency list naming a
+    # write port of another domain / of another memory, a transparency list on an asynchronous port, an asynchronous
+    # write port, a granularity the row shape does not allow, more initial rows than the depth
+    n_mk = 300 if quick else 2500
+    for _ in range(n_mk):
+        sh = rng.choice(shapes)
+        depth = rng.choice(DEPTHS)
+        ninit = rng.choice([0, depth, rng.randint(0, depth), depth + 1 if rng.random() < 0.15 else 0])
+        nw, nr = rng.randint(0, 3), rng.randint(0, 3)
+        wrs = []
+        for _k in range(nw):
+            g = rng.choice(gran_options(sh)) if rng.random() < 0.85 else rng.choice([0, 1, 2, 3, 5, -1])
+            wrs.append((rng.choice([0, 0, 1, 1, -1]) if rng.random() < 0.15 else rng.randrange(2), g))
+        rds = []
+        for _k in range(nr):
+            d = -1 if rng.random() < 0.25 else rng.randrange(2)
+            r = rng.random()
+            if r < 0.7:         # what the constructor allows
+                tr = [j for j, (wd, _g) in enumerate(wrs) if wd == d and d >= 0 and rng.random() < 0.6]
+            elif r < 0.9:       # any existing write port, whatever its domain
+                tr = [j for j in range(nw) if rng.random() < 0.6]
+            else:               # an index that is not a write port of this memory
+                tr = [rng.randrange(nw + 2) for _j in range(rng.randint(1, 2))]
+            rng.shuffle(tr)
+            rds.append((d, tr))
+        jobs.append(("mkcfg", sh, depth, ninit, wrs, rds))
+        reqs.append(f"(mkcfg {kind_sexp(sh)} {depth} {ninit} (wrs " + " ".join(f"({d} {gran_sexp(g)})" for d, g in wrs) +
+                    ") (rds " + " ".join(f"({d} ({' '.join(map(str, tr))}))" for d, tr in rds) + "))")
     resp = chk.driver.ask(reqs)
     for job, r, im in zip(jobs, resp, pool.map(ctor_worker, jobs, chunksize=16)):
         chk.count()
@@ -718,7 +787,9 @@ def run(chk):
     chk.extra.setdefault("exhaustive", {})["ctor"] = (
         f"{len(shapes)} row shapes x {len(grans)} granularities; MemoryData depth/init-length grid; write_port('comb'); "
         "read_port transparency lists of length <= 2 over {not a port, same/other memory x domain a/b} x port domain; "
-        "address width for depths 0..19, 31..33, 255..257")
+        "address width for depths 0..19, 31..33, 255..257; plus (sampled) " + str(n_mk) + " whole constructor sequences "
+        "Memory / write_port* / read_port* against Mem.mkCfg, a third of them with faults (cross-domain or foreign transparency entries, "
+        "transparency on a comb port, comb write port, inadmissible granularity, too many initial rows)")
     phase("constructors")
 
     # -- 3. random walks ------------------------------------------------------------------------------
@@ -779,6 +850,16 @@ def run(chk):
             replay = {"cfg": cfg, "state_before": obs[j], "clk_before": list(pre_clk), "rst_before": list(pre_rst),
                       "op": op, "impl_after": post,
                       "driver": it, "ops_from_reset": ops[:j + 1] if j < 40 else "see seed"}
+            if op["op"] == "tbw":
+                n_tbw = sum(1 for o in ops[:j] if o["op"] == "tbw")
+                impl_err = res["tberr"][n_tbw] if n_tbw < len(res.get("tberr", [])) else None
+                model_err = item_error(it)
+                if impl_err != model_err:
+                    # the Spec has no row `i` outside 0..depth-1: accessing one must be refused, accessing an existing one must not
+                    chk.violation(f"memory {describe(cfg)}: {describe_op(op)}: implementation "
+                                  f"{'raised ' + impl_err if impl_err else 'accepted it'}, rows 0..{cfg['depth'] - 1} exist "
+                                  f"(model/spec: {model_err or 'accepted'})", {**replay, "impl_error": impl_err, "model_error": model_err})
+                    continue
             judge.judge(cfg, op, pre_clk, post, it, replay)
             if op["op"] == "ev":
                 wr, rd = effective(cfg, op)
@@ -790,7 +871,8 @@ def run(chk):
                     chk.hist("events", "reset-high")
                 pre_clk, pre_rst = op["clk"], op["rst"]
             else:
-                chk.hist("events", "tb-row-write" if op["whole"] else "tb-slice-write")
+                chk.hist("events", "tb-row-out-of-range(IndexError)" if op.get("oob") else
+                         ("tb-row-write" if op["whole"] else "tb-slice-write"))
         if len(obs) - 1 < len(ops):
             chk.violation(f"memory {describe(cfg)}: simulation stopped after {len(obs) - 1} operations: {res.get('error')} {res.get('msg')}",
                           {"cfg": cfg, "ops": ops[:len(obs)], "error": res.get("error")})
@@ -961,7 +1043,10 @@ def replay_worker(job):
         if op["op"] == "ev":
             t.event(ctx, op["clk"], op["rst"])
         else:
-            t.tbw(ctx, op)
+            try:
+                t.tbw(ctx, op)
+            except Exception as e:  # noqa: BLE001
+                out["tberr"] = common.errkind(e)
         out["post"] = t.observe(ctx)
     t.sim.add_testbench(tb)
     t.sim.run()
@@ -998,6 +1083,9 @@ def replay(chk, path):
     print("impl after :", post)
     print("driver     :", item)
     judge = Judge(chk)
+    if op["op"] == "tbw" and res.get("tberr") != item_error(item):
+        print("verdict    : row access: implementation", res.get("tberr") or "accepted", "- model/spec", item_error(item) or "accepted")
+        return common.EXIT_VIOLATION
     bad = judge.judge(cfg, op, clk0, post, item, {"cfg": cfg, "op": op})
     print("verdict    :", "Spec violated" if bad else ("impl != model" if judge.mism else "agrees with Model and Spec"))
     chk.violations.clear()
